@@ -49,6 +49,14 @@ def gen_case(rng, tier, idx):
             "partition_k": rng.choice([1, 1, 7, 30, 100000])}
     if mode == "extend":
         case["extend_days"] = sorted(set([rng.choice([1, 2, 30, 200]), rng.choice([365, 366, 730]), rng.choice([731, 1096, 1461])]))
+        if rng.random() < 0.3:
+            # a dated schedule written for a longer period than this window: entries before the start and after the end
+            import datetime as _dt2
+            s0, e0 = parse_date(spec["start"]), parse_date(spec["end"])
+            n0 = (e0 - s0).days
+            days = sorted(set([-rng.randint(1, 300) for _ in range(rng.randint(2, 6))] + [rng.randrange(n0) for _ in range(rng.randint(3, 12))] + [n0 + rng.randint(1, 200)]))
+            spec["irr"] = {"method": 3, "kwargs": {"MaxIrr": rng.choice([25, 40, 80])},
+                           "schedule": [[fmt_date(s0 + _dt2.timedelta(days=d)), rng.choice([10, 20, 30, 50])] for d in days]}
         if rng.random() < 0.4:
             # a sparse CO2 record above the reference concentration: values for the simulated years are interpolated in time
             import datetime as _dt
